@@ -23,6 +23,10 @@ class Shape(object):
         self.nfields = nfields
         self.checks = checks
         self.header = header
+        self.line = "lf"
+        if ":" in fmt:
+            fmt, self.line = fmt.split(":")
+        self.eol = {"lf": "\n", "crlf": "\r\n", "cr": "\r", "none": "", "any": "\n"}[self.line]
         self.fmt = fmt
         self.recording = recording
         self.width = 8 if recording else 3
@@ -34,7 +38,7 @@ class Shape(object):
         if self.header:
             rows.append(["D", "Header", str(self.header)])
         if self.fmt == "fixed":
-            rows.append(["D", "Line delimiter", "lf"])
+            rows.append(["D", "Line delimiter", self.line])
         if self.recording:
             rows.append(["D", "Allowed characters", "32...125"])  # "~" (126) is not allowed
         length = str(self.width) if self.fmt == "fixed" else ""
@@ -115,7 +119,7 @@ class Shape(object):
                 break
             cells = self.cells(row, number)
             if self.fmt == "fixed":
-                lines.append("".join(cell.ljust(self.width)[:max(self.width, len(cell))] for cell in cells) + "\n")
+                lines.append("".join(cell.ljust(self.width)[:max(self.width, len(cell))] for cell in cells) + self.eol)
             else:
                 lines.append(",".join(cells) + "\r\n")
         text = "".join(lines)
@@ -227,7 +231,7 @@ def run_read(shape, cid, run, keep=None):
     mode = run["mode"]
     api = run["api"]
     end = run["end"]
-    out = []
+    raw = []  # yielded items are kept as they are and looked at only after the iteration has moved on and ended (C06)
     messages = []
     exc = dict(NO_ERR)
     acc = rej = None
@@ -242,11 +246,11 @@ def run_read(shape, cid, run, keep=None):
         try:
             if end == "abandon":
                 for _ in range(run["k"]):
-                    out.append(item_of(shape, next(generator), messages))
+                    raw.append(next(generator))
                 generator.close()
             else:
                 for item in generator:
-                    out.append(item_of(shape, item, messages))
+                    raw.append(item)
         except StopIteration:
             pass
         except Exception as error:  # noqa
@@ -258,7 +262,7 @@ def run_read(shape, cid, run, keep=None):
             try:
                 with validio.Reader(cid, source, on_error=mode, validate_until=limit) as reader:
                     for item in reader.rows():
-                        out.append(item_of(shape, item, messages))
+                        raw.append(item)
             except Exception as error:  # noqa
                 exc = project_error(shape, error)
             if reader is not None:
@@ -273,15 +277,16 @@ def run_read(shape, cid, run, keep=None):
                     keep.append(iterator)
                 if end == "abandon":
                     for _ in range(run["k"]):
-                        out.append(item_of(shape, next(iterator), messages))
+                        raw.append(next(iterator))
                 else:
                     for item in iterator:
-                        out.append(item_of(shape, item, messages))
+                        raw.append(item)
             except StopIteration:
                 pass
             except Exception as error:  # noqa
                 exc = project_error(shape, error)
             acc, rej = reader.accepted_rows_count, reader.rejected_rows_count
+    out = [item_of(shape, item, messages) for item in raw]
     return {"out": out, "exc": exc, "acc": acc, "rej": rej, "text": text, "messages": messages,
             "calls": _stop_call_log(call_log)}
 
@@ -289,7 +294,7 @@ def run_read(shape, cid, run, keep=None):
 def expected_line(shape, row, number):
     cells = shape.cells(row, number)
     if shape.fmt == "fixed":
-        return "".join(cell.ljust(shape.width) for cell in cells) + "\n"
+        return "".join(cell.ljust(shape.width) for cell in cells) + (shape.eol if shape.line != "any" else __import__("os").linesep)
     return ",".join(cells) + "\r\n"
 
 
